@@ -19,7 +19,7 @@ from typing import cast
 
 import elementpath.aliases as ta
 
-from elementpath.datatypes import AbstractDateTime, ArithmeticProxy, Duration, NumericProxy
+from elementpath.datatypes import AbstractDateTime, ArithmeticProxy, Duration, Float, NumericProxy
 from elementpath.xpath_nodes import XPathNode, ElementNode, DocumentNode
 
 from elementpath.exceptions import ElementPathTypeError
@@ -167,6 +167,13 @@ def nud__plus_minus_operators(self: XPathToken) -> XPathToken:
     return self
 
 
+def _floating_type(op1: object, op2: object) -> type[float]:
+    """The result type for xs:float/xs:double operands: xs:float only if no xs:double is involved."""
+    if type(op1) is float or type(op2) is float:
+        return float
+    return type(op1) if isinstance(op1, Float) else type(op2)  # type: ignore[return-value]
+
+
 @method(infix('div', bp=45))
 def evaluate__div_operator(self: XPathToken, context: ta.ContextType = None) \
         -> int | float | decimal.Decimal | ta.AnyItemsOrEmpty:
@@ -197,12 +204,15 @@ def evaluate__div_operator(self: XPathToken, context: ta.ContextType = None) \
             isinstance(dividend, (int, decimal.Decimal)) and \
             isinstance(divisor, (int, decimal.Decimal)):
         raise self.error('FOAR0001')
-    elif dividend == 0:
-        return math.nan
+
+    cls = _floating_type(dividend, divisor) \
+        if isinstance(dividend, float) or isinstance(divisor, float) else float
+    if dividend == 0 or dividend != dividend:
+        return cls('nan')
     elif dividend > 0:
-        return float('-inf') if str(divisor).startswith('-') else float('inf')
+        return cls('-inf') if str(divisor).startswith('-') else cls('inf')
     else:
-        return float('inf') if str(divisor).startswith('-') else float('-inf')
+        return cls('inf') if str(divisor).startswith('-') else cls('-inf')
 
 
 @method(infix('mod', bp=45))
@@ -215,14 +225,17 @@ def evaluate__mod_operator(self: XPathToken, context: ta.ContextType = None) \
         return []
     elif op2 is None:
         raise self.error('XPTY0004', '2nd operand is an empty sequence')
-    elif op2 == 0 and isinstance(op2, float):
-        return math.nan
-    elif math.isinf(op2) and not math.isinf(op1) and op1 != 0:
-        return op1 if self.parser.version != '1.0' else math.nan
 
     try:
-        if isinstance(op1, int) and isinstance(op2, int):
-            return op1 % op2 if op1 * op2 >= 0 else -(abs(op1) % op2)
+        if isinstance(op1, float) or isinstance(op2, float):
+            # xs:float and xs:double: IEEE remainder with the sign of the dividend
+            cls = _floating_type(op1, op2)
+            if math.isnan(op1) or math.isnan(op2) or math.isinf(op1) or op2 == 0:
+                return cls('nan')
+            return cls(math.fmod(op1, op2))
+        elif isinstance(op1, int) and isinstance(op2, int):
+            result = abs(op1) % abs(op2)
+            return -result if op1 < 0 else result
         return op1 % op2  # type: ignore[operator]
     except TypeError as err:
         raise self.error('FORG0006', err) from None
